@@ -1,77 +1,23 @@
-import Lean.Data.Json
-import Pog.Model.Names
-import Pog.Model.Fresh
+import Pog.Drv.Util
+import Pog.Drv.Names
 /-
   Line protocol: one JSON request per line on stdin, one JSON reply per line on stdout.
     request  {"f": <function>, "a": [<args>], "u": {<codepoint>: {"w":bool,"d":bool,"l":str,"U":str,"iu":bool}}}
     reply    <json value>   |   {"error": "..."}
   Strings are JSON strings (Unicode scalar values only; the harness never sends lone surrogates).
+  Each model contributes one `Dispatch` in Pog/Drv/<Model>.lean; they are chained here.
 -/
-open Lean Pog
+open Lean Pog Pog.Drv
 
-def jstr (s : Str) : Json := Json.str (String.ofList s)
-def jstrs (xs : List Str) : Json := Json.arr (xs.map jstr).toArray
-def jopt (f : α → Json) : Option α → Json
-  | some a => f a
-  | none => Json.null
+def dispatchers : List Dispatch := [
+  dispatchNames
+]
 
-def getStr (j : Json) : Except String Str := do
-  let s ← j.getStr?
-  pure s.toList
-
-def getStrs (j : Json) : Except String (List Str) := do
-  let a ← j.getArr?
-  a.toList.mapM getStr
-
-def argN (args : Array Json) (i : Nat) : Except String Json :=
-  match args[i]? with
-  | some j => pure j
-  | none => throw s!"missing arg {i}"
-
-/-- Build a `UInfo` from the harness-provided table for the non-ASCII characters of the input. -/
-def mkUInfo (j : Option Json) : UInfo :=
-  match j with
-  | none => UInfo.ascii
-  | some tbl =>
-    let look (c : Char) : Option Json := (tbl.getObjVal? (toString c.toNat)).toOption
-    { word := fun c => match look c with
-        | some e => (e.getObjValAs? Bool "w").toOption.getD false
-        | none => false
-      digit := fun c => match look c with
-        | some e => (e.getObjValAs? Bool "d").toOption.getD false
-        | none => false
-      lower := fun c => match look c with
-        | some e => ((e.getObjValAs? String "l").toOption.map String.toList).getD [c]
-        | none => [c]
-      upper := fun c => match look c with
-        | some e => ((e.getObjValAs? String "U").toOption.map String.toList).getD [c]
-        | none => [c]
-      isupper := fun c => match look c with
-        | some e => (e.getObjValAs? Bool "iu").toOption.getD false
-        | none => false }
-
-def dispatch (f : String) (a : Array Json) (u : UInfo) : Except String Json := do
-  match f with
-  | "ping" => pure (Json.str "pong")
-  | "tokenize" => pure (jstrs (tokenize (← getStr (← argN a 0))))
-  | "sanClass" => pure (jstr (sanClass (← getStr (← argN a 0))))
-  | "sanModule" => pure (jstr (sanModule u (← getStr (← argN a 0))))
-  | "sanMethod" => pure (jstr (sanMethod (← getStr (← argN a 0))))
-  | "normTagKey" => pure (jstr (normTagKey u (← getStr (← argN a 0))))
-  | "sanTagAttr" => pure (jstr (sanTagAttr u (← getStr (← argN a 0))))
-  | "isValidPyIdentifier" => pure (Json.bool (isValidPyIdentifier (← getStr (← argN a 0))))
-  | "cleanOpId" =>
-    pure (jstr (cleanOpId (← getStr (← argN a 0)) (← getStr (← argN a 1)) (← getStr (← argN a 2))))
-  | "enumMemberStr" => pure (jopt jstr (enumMemberStr u (← getStr (← argN a 0))))
-  | "fieldNames" => pure (jopt jstrs (fieldNames (← getStrs (← argN a 0))))
-  | "enumMemberNames" => pure (jopt jstrs (enumMemberNames (← getStrs (← argN a 0))))
-  | "enumMemberNamesOfValues" => pure (jopt jstrs (enumMembersOfValues u (← getStrs (← argN a 0))))
-  | "classNames" => pure (jopt jstrs (classNames (← getStrs (← argN a 0))))
-  | "moduleStems" => pure (jopt jstrs (moduleStems u (← getStrs (← argN a 0))))
-  | "inlineName" => pure (jopt jstr (inlineName (← getStrs (← argN a 0)) (← getStr (← argN a 1))))
-  | "dedupOpIds" => pure (jstrs (dedupOpIds [] (← getStrs (← argN a 0))))
-  | "methodNames" => pure (jstrs (methodNames (← getStrs (← argN a 0))))
-  | _ => throw s!"unknown function {f}"
+def dispatch (f : String) (a : Array Json) (u : UInfo) : Except String Json :=
+  if f == "ping" then pure (Json.str "pong") else
+  match dispatchers.findSome? (fun d => d f a u) with
+  | some r => r
+  | none => throw s!"unknown function {f}"
 
 def handle (line : String) : Json :=
   match Json.parse line with
